@@ -8,8 +8,8 @@ import EdbVerif.Lemmas.MiniQLAux
 namespace EdbVerif.MiniQL
 open EdbVerif.Gen.Card EdbVerif.Card
 
-theorem envOK_get {db : DB} {Γ : VCtx} {env : List Val} (h : EnvOK db Γ env) {i : Nat}
-    (hi : i < Γ.length) : ∃ vi v, Γ[i]? = some vi ∧ env[i]? = some v ∧ HasTy db vi.ty v := by
+theorem envOK_get {sch : Schema} {db : DB} {Γ : VCtx} {env : List Val} (h : EnvOK sch db Γ env) {i : Nat}
+    (hi : i < Γ.length) : ∃ vi v, Γ[i]? = some vi ∧ env[i]? = some v ∧ HasTy sch db vi.ty v := by
   induction h generalizing i with
   | nil => simp at hi
   | cons hx _ ih =>
@@ -20,13 +20,39 @@ theorem envOK_get {db : DB} {Γ : VCtx} {env : List Val} (h : EnvOK db Γ env) {
       obtain ⟨vi, v, h1, h2, h3⟩ := ih (Nat.lt_of_succ_lt_succ hi)
       exact ⟨vi, v, by simpa using h1, by simpa using h2, h3⟩
 
-theorem mem_extent {db : DB} {t : Nat} {v : Val} (h : v ∈ db.extent t) : HasTy db (.obj t) v := by
+theorem mem_extent {sch : Schema} {db : DB} {t : Nat} {v : Val} (h : v ∈ db.extent (sch.lineage t)) :
+    HasTy sch db (.obj [t]) v := by
   unfold DB.extent at h
   obtain ⟨o, ho, rfl⟩ := List.mem_map.1 h
   obtain ⟨hmem, hty⟩ := List.mem_filter.1 ho
-  refine ⟨o.1, rfl, ?_⟩
-  have : o.2 = t := by simpa using hty
-  rw [← this]; exact hmem
+  exact ⟨o.1, o.2, t, rfl, hmem, by simp, by simpa using hty⟩
+
+theorem hasTy_unionTy {sch : Schema} {db : DB} {a b : Ty} {v : Val}
+    (hacc : (match a, b with
+      | .obj _, .obj _ => true
+      | x, y => x == y) = true) :
+    (HasTy sch db a v → HasTy sch db (unionTy a b) v) ∧
+      (HasTy sch db b v → HasTy sch db (unionTy a b) v) := by
+  cases a with
+  | other =>
+    cases b with
+    | other => simp [unionTy]
+    | obj us => simp at hacc
+  | obj ts =>
+    cases b with
+    | other => simp at hacc
+    | obj us =>
+      simp only [unionTy]
+      split
+      · rename_i h
+        simp only [beq_iff_eq] at h
+        subst h
+        exact ⟨id, id⟩
+      · constructor
+        · rintro ⟨i, ty, t, h1, h2, h3, h4⟩
+          exact ⟨i, ty, t, h1, h2, List.mem_append_left _ h3, h4⟩
+        · rintro ⟨i, ty, t, h1, h2, h3, h4⟩
+          exact ⟨i, ty, t, h1, h2, List.mem_append_right _ h3, h4⟩
 
 theorem take_sub {α : Type} (l : List α) (n : Nat) : ∀ v ∈ l.take n, v ∈ l :=
   fun _ h => List.mem_of_mem_take h
@@ -37,7 +63,7 @@ theorem drop_sub {α : Type} (l : List α) (n : Nat) : ∀ v ∈ l.drop n, v ∈
 /-- what the induction proves about one query -/
 def CardOK (sch : Schema) (db : DB) (Γ : VCtx) (env : List Val) (q : Q) : Prop :=
   γ (inferCard sch Γ q) (eval sch db env q).length ∧
-    ∀ v ∈ eval sch db env q, HasTy db (tyOf sch (Γ.map (·.ty)) q) v
+    ∀ v ∈ eval sch db env q, HasTy sch db (tyOf sch (Γ.map (·.ty)) q) v
 
 theorem firstNonzero_pair (a b : Nat) :
     firstNonzero [a, b] = if a = 0 then b else a := by
@@ -49,7 +75,7 @@ theorem firstNonzero_pair (a b : Nat) :
 mutual
 theorem card_ok (sch : Schema) (db : DB) (hc : Conforms sch db) (hs : SigOK sch) :
     (q : Q) → ∀ (Γ : VCtx) (env : List Val), accepts sch Γ q = true → noExclRule sch Γ q = true →
-      EnvOK db Γ env → CardOK sch db Γ env q
+      EnvOK sch db Γ env → CardOK sch db Γ env q
   | .lit n => by
     intro Γ env _ _ _
     simp [CardOK, inferCard, eval, γ, tyOf, HasTy]
@@ -91,15 +117,24 @@ theorem card_ok (sch : Schema) (db : DB) (hc : Conforms sch db) (hs : SigOK sch)
     cases hp : sch.ptr? p with
     | none => simp [hp] at ha2
     | some d =>
-      simp only [hp, beq_iff_eq] at ha2
-      have hsrc : ∀ v ∈ eval sch db env src, ∃ id, v = .obj id ∧ (id, d.srcTy) ∈ db.objs := by
-        intro v hv; have := ih2 v hv; rw [ha2] at this; exact this
+      simp only [hp] at ha2
+      have hsrc : ∀ v ∈ eval sch db env src, ∃ id ty, v = .obj id ∧ (id, ty) ∈ db.objs ∧
+          ty ∈ sch.lineage d.srcTy := by
+        intro v hv
+        have hv' := ih2 v hv
+        cases hts : tyOf sch (Γ.map (·.ty)) src with
+        | other => simp [hts] at ha2
+        | obj ts =>
+          rw [hts] at hv' ha2
+          obtain ⟨id, ty, t, h1, h2, h3, h4⟩ := hv'
+          simp only [Bool.and_eq_true, List.all_eq_true, List.contains_eq_mem, decide_eq_true_eq] at ha2
+          exact ⟨id, ty, h1, h2, hc.trans _ _ _ (ha2.2 t h3) h4⟩
       have hout : γ (cartesianCardinality [inferCard sch Γ src, d.card])
           ((eval sch db env src).flatMap (followPtr db p)).length := by
         apply flatMap_sound _ _ ih1
         intro v hv
-        obtain ⟨id, rfl, hid⟩ := hsrc v hv
-        exact hc.card p d id hp hid
+        obtain ⟨id, ty, rfl, hid, hty⟩ := hsrc v hv
+        exact hc.card p d id ty hp hid hty
       refine ⟨?_, ?_⟩
       · simp only [inferCard, ptrCardOf, eval, hp]
         split
@@ -113,8 +148,8 @@ theorem card_ok (sch : Schema) (db : DB) (hc : Conforms sch db) (hs : SigOK sch)
         | some t =>
           simp only [hl, Option.isSome_some, ↓reduceIte, mem_dedup, List.mem_flatMap] at hv
           obtain ⟨s, hs1, hs2⟩ := hv
-          obtain ⟨id, rfl, hid⟩ := hsrc s hs1
-          exact hc.tgt p d t id hp hl hid v hs2
+          obtain ⟨id, ty, rfl, hid, hty⟩ := hsrc s hs1
+          exact hc.tgt p d t id ty hp hl hid hty v hs2
   | .tuple es => by
     intro Γ env ha hn he
     simp only [accepts] at ha
@@ -125,7 +160,7 @@ theorem card_ok (sch : Schema) (db : DB) (hc : Conforms sch db) (hs : SigOK sch)
     exact cartesian_sound ih
   | .union a b => by
     intro Γ env ha hn he
-    simp only [accepts, Bool.and_eq_true, beq_iff_eq] at ha
+    simp only [accepts, Bool.and_eq_true] at ha
     simp only [noExclRule, Bool.and_eq_true] at hn
     obtain ⟨⟨ha1, ha2⟩, hty⟩ := ha
     obtain ⟨ia1, ia2⟩ := card_ok sch db hc hs a Γ env ha1 hn.1 he
@@ -139,8 +174,8 @@ theorem card_ok (sch : Schema) (db : DB) (hc : Conforms sch db) (hs : SigOK sch)
       simp only [eval, List.mem_append] at hv
       simp only [tyOf]
       rcases hv with h | h
-      · exact ia2 v h
-      · rw [hty]; exact ib2 v h
+      · exact (hasTy_unionTy hty).1 (ia2 v h)
+      · exact (hasTy_unionTy hty).2 (ib2 v h)
   | .distinct a => by
     intro Γ env ha hn he
     simp only [accepts] at ha
@@ -290,7 +325,7 @@ theorem card_ok (sch : Schema) (db : DB) (hc : Conforms sch db) (hs : SigOK sch)
       simpa [tyOf] using this
 theorem card_ok_list (sch : Schema) (db : DB) (hc : Conforms sch db) (hs : SigOK sch) :
     (qs : List Q) → ∀ (Γ : VCtx) (env : List Val), acceptsList sch Γ qs = true →
-      noExclRuleList sch Γ qs = true → EnvOK db Γ env →
+      noExclRuleList sch Γ qs = true → EnvOK sch db Γ env →
       All2 γ (inferCardList sch Γ qs) ((evalList sch db env qs).map List.length)
   | [] => by
     intro Γ env _ _ _
